@@ -99,6 +99,9 @@ def run(ctx, anchors=None):
     # ------------------------------------------------------------ R09.2
     parser = fb.fn(A["parser"])
     pcfg = parser.cfg()
+
+    from . import common as _cm
+    _cm.require_names(parser, ["buf", "in_flags"], "R09.2")
     adds = [n for n in parser.nodes() if n["k"] == "cassign"]
     sign_defs = []
     for n in parser.nodes():
@@ -136,6 +139,7 @@ def run(ctx, anchors=None):
     ctx.inst(unknown, "R09.2", "reject-unknown-name", parser.loc(), "an unknown flag name (lookup returned 0) reaches exit(1)")
     from . import common
     main = common.func_calling(fb, "btcdeb.cpp", "setup_environment")
+    common.require_names(main, ["flags"], "R09.2")
     fdecl = [d for n in main.nodes() if n["k"] == "decl" for d in n["decls"] if d["n"] == "flags"]
     ok_init = bool(fdecl) and fdecl[0].get("init") is not None and astq.estr(fdecl[0]["init"]) == A["standard"]
     ctx.inst(ok_init, "R09.2", "starts-from-standard", main.loc(), "`flags` in main starts as STANDARD_SCRIPT_VERIFY_FLAGS")
